@@ -442,6 +442,11 @@ class Interp:
             raise RaiseEx(AttributeError(name))
         if isinstance(o, Tensor) and name == 'shape':
             return o.shape
+        if isinstance(o, NS):
+            v = o.__dict__.get(name, _NOTFOUND)
+            if v is _NOTFOUND:
+                return Missing(o._name + '.' + name)        # library entry point outside the model: using it is Unsupported
+            return v
         try:
             return getattr(o, name)
         except AttributeError as e:
